@@ -70,7 +70,11 @@ R08.8 replace-type is looked up, for parameters and for results, in the config m
 	// R08.7
 	for _, name := range []string{"testify", "matryer"} {
 		tname := name
+		sibling := newSiblingIndependence()
 		walkTemplate(c, name, "body", func(p *TPath) {
+			if why := sibling.check(p); why != "" {
+				c.Fail("R08.7", tname+"|mock-depends-on-sibling", "internal/mock_"+tname+".templ", why)
+			}
 			for k := range p.E.flagsSeen {
 				key := k[strings.LastIndex(k, ":")+1:]
 				if !perMockKeys[key] {
@@ -895,4 +899,67 @@ func subRules(c *Ctx, rule, label, why string, run func(sub *Ctx)) {
 		o := sub.fails[k]
 		c.Fail(rule, label+"|"+o.Key, o.Pos, why+o.Detail)
 	}
+}
+
+// siblingIndependence: what a built-in template renders for one mock depends on that mock's own
+// data only. For shapes with several interfaces, the declarations rendered for the last interface
+// are compared across all paths that agree on that interface's own decisions (its template-data
+// flags, its constraints) and differ in the decisions about the interfaces rendered before it: the
+// text must be identical. A template variable that is set for one mock and not reset for the next
+// (state carried from one iteration of 'range .Interfaces' to the following) makes them differ.
+type siblingIndependence struct {
+	seen map[string]string // key -> rendering
+	env  map[string]string // key -> environment of the first path
+}
+
+func newSiblingIndependence() *siblingIndependence {
+	return &siblingIndependence{seen: map[string]string{}, env: map[string]string{}}
+}
+
+func (s *siblingIndependence) check(p *TPath) string {
+	n := len(p.Shape.Ifaces)
+	if n < 2 || p.Err != nil || p.ParseEr != nil || p.File == nil {
+		return ""
+	}
+	last := n - 1
+	L := ifaceLetter(last)
+	own := func(k string) bool {
+		// decision keys name the interface they are about as one of their ':'-separated parts
+		// ("flag:iface:a:unroll-variadic", "explicit-constraint:a.q0")
+		for _, part := range strings.Split(k, ":") {
+			for j := 0; j < n; j++ {
+				l := ifaceLetter(j)
+				if part == l || strings.HasPrefix(part, l+".") {
+					return j == last
+				}
+			}
+		}
+		return true // not about an interface (file-level data)
+	}
+	var ks []string
+	for k, v := range p.E.keyed {
+		if own(k) {
+			ks = append(ks, fmt.Sprintf("%s=%v", k, v))
+		}
+	}
+	sort.Strings(ks)
+	key := p.Tmpl + "|" + p.Shape.String() + "|" + strings.Join(ks, ",")
+	name := p.E.structName(last)
+	var parts []string
+	for _, d := range p.File.Decls {
+		code := p.code(d)
+		if strings.Contains(code, name) {
+			parts = append(parts, code)
+		}
+	}
+	rendering := strings.Join(parts, "\n")
+	if prev, ok := s.seen[key]; ok {
+		if prev != rendering {
+			return fmt.Sprintf("the declarations rendered for mock %s (interface %s) differ between two files that give that interface the same data and differ only in the data of the mocks rendered before it: something is carried over from one mock of a file to the next [%s] vs [%s]", name, strings.ToUpper(L), s.env[key], p.Env())
+		}
+		return ""
+	}
+	s.seen[key] = rendering
+	s.env[key] = p.Env()
+	return ""
 }
